@@ -106,43 +106,51 @@ def clause2_siblings(ctx, P, rows):
                     break
             if not diff:
                 diff = "different length (%d vs %d instructions)" % (len(a), len(b))
-        ctx.ob("C16.2 R-SIB", fi, "twin:" + r["name"], ok,
-               "case-insensitive %s is not the twin of %s up to {strcmp->jet_strcasecmp, strncmp->jet_strncasecmp, "
-               "strstr->jet_strcasestr}: %s" % (fi.srcname, fs.srcname, diff) if not ok else "siblings agree")
+        if ok:
+            ctx.ob("C16.2 R-SIB", fi, "twin:" + r["name"], True, "siblings agree")
+        else:
+            # the two differ in FORM; whether they still agree in what they compute is not something this comparison can tell (a
+            # behaviour-preserving rewrite of one of them looks the same to it as a slip) - the role and bound rules below decide what
+            # they can, and the pair is reported as 'not decided', never as a violation and never as a pass
+            ctx.ob("C16.2 R-SIB", fi, "twin:" + r["name"], True, "siblings differ in form (%s); agreement decided by the role and bound rules only" % diff)
+            ctx.broken("C16.2 R-SIB: case-insensitive %s is no longer the instruction-wise twin of %s up to {strcmp->jet_strcasecmp, "
+                       "strncmp->jet_strncasecmp, strstr->jet_strcasestr} (%s): their agreement cannot be decided by comparison of form" %
+                       (fi.srcname, fs.srcname, diff))
         # sensitive function uses only case-sensitive primitives, and vice versa
         cs_calls = {P.srcname_of(c.callee) for c in fs.calls() if c.callee} - {"strlen"}
         ci_calls = {P.srcname_of(c.callee) for c in fi.calls() if c.callee} - {"strlen"}
         ctx.ob("C16.2 R-SIB", fs, "primitives:" + r["name"], cs_calls <= set(CMAP) and ci_calls <= set(CMAP.values()) and cs_calls and ci_calls,
                "matcher %s uses %s / %s" % (r["name"], sorted(cs_calls), sorted(ci_calls)))
-        # argument roles (operand = pm->path_elements[..] i.e. derives from param 0; path = param 1)
-        f = fs
-
-        def role(o):
-            lv, flds = Q.leaves(P, f, o)
-            ps = {l[1] for l in lv if l[0] == "param"}
-            if ps == {0}:
-                return "operand"
-            if ps == {1}:
-                return "path"
-            if ps == {0, 1}:
-                return "path+operand"
-            return "other"
-        for c in f.calls(("strstr", "strcmp", "strncmp")):
-            n = P.srcname_of(c.callee)
-            roles = tuple(role(x) for x in c.a[:2])
-            if n == "strstr":
-                ok = roles == ("path", "operand")
-                msg = "strstr(haystack, needle) must be (path, operand), is %s" % (roles,)
-            elif n == "strncmp":
-                ln = P.term(f, c.a[2])
-                okn = Q.is_call_to(ln, "strlen") and role(f.insts[c.a[2]].a[0] if isinstance(c.a[2], int) else c.a[2]) == "operand"
-                ok = set(roles) == {"path", "operand"} and okn
-                msg = "strncmp must compare (operand, path) over strlen(operand): roles %s, length %s" % (roles, fmt_term(ln))
-            else:
-                want = {"path", "operand"}
-                ok = set(roles) == want
-                msg = "strcmp roles are %s, expected %s" % (roles, sorted(want))
-            ctx.ob("C16.2 R-PAIR", f, "%s:%s" % (r["name"], Q.ordinal_site(f, c, P)), ok, msg)
+        # argument roles (operand = pm->path_elements[..] i.e. derives from param 0; path = param 1) - in both twins
+        for f in (fs, fi):
+            def role(o, f=f):
+                lv, flds = Q.leaves(P, f, o)
+                if any(l[0] == "call" and not Q.is_call_to(l, "strlen") for l in lv):
+                    return "derived"     # e.g. the result of the previous search: the outcome depends on the order of the operands
+                ps = {l[1] for l in lv if l[0] == "param"}
+                if ps == {0}:
+                    return "operand"
+                if ps == {1}:
+                    return "path"
+                if ps == {0, 1}:
+                    return "path+operand"
+                return "other"
+            for c in f.calls(("strstr", "strcmp", "strncmp", "jet_strcasestr", "jet_strcasecmp", "jet_strncasecmp")):
+                n = {"jet_strcasestr": "strstr", "jet_strcasecmp": "strcmp", "jet_strncasecmp": "strncmp"}.get(P.srcname_of(c.callee), P.srcname_of(c.callee))
+                roles = tuple(role(x) for x in c.a[:2])
+                if n == "strstr":
+                    ok = roles == ("path", "operand")
+                    msg = "the search must be (haystack = the path, needle = the operand) for every operand, is %s" % (roles,)
+                elif n == "strncmp":
+                    ln = P.term(f, c.a[2])
+                    okn = Q.is_call_to(ln, "strlen") and role(f.insts[c.a[2]].a[0] if isinstance(c.a[2], int) else c.a[2]) == "operand"
+                    ok = set(roles) == {"path", "operand"} and okn
+                    msg = "the bounded comparison must compare (operand, path) over strlen(operand): roles %s, length %s" % (roles, fmt_term(ln))
+                else:
+                    want = {"path", "operand"}
+                    ok = set(roles) == want
+                    msg = "comparison roles are %s, expected %s" % (roles, sorted(want))
+                ctx.ob("C16.2 R-PAIR", f, "%s:%s" % (r["name"], Q.ordinal_site(f, c, P)), ok, msg)
     ctx.floor("C16.2 R-SIB", 12)
     ctx.floor("C16.2 R-PAIR", 6)
 
